@@ -3,6 +3,7 @@
 package main
 
 import (
+	"verif.local/simrt"
 	"encoding/json"
 	"flag"
 	"fmt"
@@ -189,6 +190,9 @@ func main() {
 		fmt.Sscanf(v, "%g", &limit)
 	}
 	go func() {
+		var lastProgress uint64
+		lastSample := time.Now()
+		progressing := true
 		for {
 			time.Sleep(250 * time.Millisecond)
 			var ms runtime.MemStats
@@ -211,7 +215,16 @@ func main() {
 			if st == 0 {
 				continue
 			}
-			if time.Since(time.Unix(0, st)).Seconds() > limit {
+			// simulated time still advancing at a fair pace: the machine is slow or loaded,
+			// the tick budget will end a runaway loop in instrumented code by itself. The
+			// wall clock only decides when ticks have (almost) stopped coming, or after 10x.
+			now := time.Now()
+			if p := simrt.Progress.Load(); now.Sub(lastSample) > 5*time.Second {
+				progressing = p-lastProgress > 200_000
+				lastProgress, lastSample = p, now
+			}
+			elapsed := time.Since(time.Unix(0, st)).Seconds()
+			if (elapsed > limit && !progressing) || elapsed > 10*limit {
 				buf := make([]byte, 1<<20)
 				n := runtime.Stack(buf, true)
 				fmt.Fprintf(os.Stderr, "WATCHDOG case=%d one execution exceeded %.0fs wall clock; executing: %v\n%s\n", caseIdx.Load(), limit, zz.CurrentDesc.Load(), buf[:n])
